@@ -6,16 +6,25 @@ and of the per-row reference behaviour its docstring describes.
 
 What is a PARAMETER (computed by the harness from the live engine, not modelled):
   * cell values are opaque tokens `α` with decidable equality = Python `==` on the values the engine
-    works with.  Every `require` cell comes as a pair: `raw` (the value as sent, after
-    `decode_bulk_values`; only used by the "require values must be unique" check) and `conv`
-    (= `col.convert(raw)`, what `table.lookup_records` searches for and what `BulkAddRecord` stores).
+    works with.  Every `require` cell comes as a triple: `raw` (the value as sent, after
+    `decode_bulk_values`; only used by the "require values must be unique" check), `conv`
+    (= `col.convert(raw)`, what `table.lookup_records` searches for) and `store` (what `BulkAddRecord`
+    stores; = `conv` for data columns).
     `col_values` cells come converted (`col.convert`), which is what both bulk actions store and what
     `trim_update_action` compares with the current cell.
   * `next` = `table.next_row_id()`, `dflt` = `col.getdefault()` of every data column.
   * `lookup_records(**key)` = the rows whose cells equal the key, in row-id order (the lookup index
     is exact: C13/C05).
-Columns named `id` / `manualSort`, empty columns (isFormula with an empty formula, converted to
-data on first write) and compound values are outside the model.
+  * EMPTY columns (isFormula with an empty formula: the state of a freshly added column) accept data:
+    `_ensure_column_accepts_data` converts them to data columns on the first non-blank write, with a
+    type guessed from the values of THAT bulk action (`guess_col_info`).  The guess and the new
+    type's conversion are parameters: a `require` cell carries a third token `store` (what
+    `BulkAddRecord` stores for it: `conv` is what the lookup, done while the column is still empty
+    and of type Any, searches for - they only differ on empty columns), `col_values` cells come as
+    they are stored, and `upsertImplConv` gets, for each of the two bulk actions, the columns that
+    it converts with the new type's default (`ModifyColumn {isFormula: False}` writes that default
+    into every row that exists at that moment).  `upsertImpl` is the case without conversions.
+Columns named `id` / `manualSort` and compound values are outside the model.
 -/
 deriving instance DecidableEq for Except
 
@@ -79,7 +88,9 @@ def lookupRecords (t : Table κ α) (key : Rec κ α) : List Nat :=
 
 /-! ### the request -/
 
-inductive ColKind | data | formula
+/-- `data`: isFormula = False.  `formula`: isFormula = True with formula text.  `empty`: isFormula =
+    True with formula '' (accepts data, see `_ensure_column_accepts_data`). -/
+inductive ColKind | data | formula | empty
 deriving DecidableEq, Repr
 
 /-- Column id ↦ kind; columns absent from the schema do not exist (`KeyError`). -/
@@ -106,8 +117,9 @@ inductive Err
 deriving DecidableEq, Repr
 
 structure Cell (α : Type) where
-  raw : α
-  conv : α
+  raw : α      -- the value as sent (uniqueness check)
+  conv : α     -- col.convert(raw) with the column as it is when the lookups are done
+  store : α    -- what BulkAddRecord stores for it (= conv unless the column is an empty column)
 deriving DecidableEq, Repr
 
 structure Request (κ α : Type) where
@@ -147,7 +159,8 @@ The argument checks at the top of `BulkAddOrUpdateRecord`, in the order of the c
     [length] = unique_lengths
     num_unique_keys = len(set(zip(*decoded_require.values())))
     if require and num_unique_keys < length: raise ValueError("require values must be unique")
-    require_add_keys = {key for key in require if not (table.get_column(key).is_formula() and …)}
+    require_add_keys = {key for key in require
+                        if not (table.get_column(key).is_formula() and get_column_rec(table_id, key).formula)}
 -/
 def validate (sch : Schema κ) (rq : Request κ α) (opt : Options) : Except Err (Option Nat) :=
   if opt.onMany = .bad then .error .badOnMany
@@ -161,12 +174,13 @@ def validate (sch : Schema κ) (rq : Request κ α) (opt : Options) : Except Err
     | _ => .error .lengths
 
 /-- `values` of a row to be added:
-      values = {key: require[key][i] for key in require_add_keys}   -- no real formula columns
+      values = {key: require[key][i] for key in require_add_keys}   -- no real formula columns,
+                                                                    -- but empty columns stay
       values.update({key: vals[i] for key, vals in col_values.items()})
     (the cells taken from `require` are stored converted by BulkAddRecord). -/
 def addValues (sch : Schema κ) (rq : Request κ α) (i : Nat) : Rec κ α :=
   setAll (((rowAt rq.require i).filter (fun p => decide (aget sch p.1 ≠ some ColKind.formula))).map
-            (fun p => (p.1, p.2.conv)))
+            (fun p => (p.1, p.2.store)))
          (rowAt rq.colValues i)
 
 /-- `if len(records) > 1:  first → records[:1];  none → continue` (`Option.none` = continue). -/
@@ -215,7 +229,10 @@ def implStep (sch : Schema κ) (t0 : Table κ α) (rq : Request κ α) (opt : Op
                  updateRecordIds := acc.updateRecordIds ++ [recs] }
   else { acc with recordIds := acc.recordIds ++ [some []] }
 
-/-- `_ensure_column_accepts_data` for each column of a bulk action, in order. -/
+/-- `_ensure_column_accepts_data` for each column of a bulk action, in order:
+      if not schema_col.isFormula: return values          -- data column
+      if schema_col.formula: raise ValueError("Can't save value to formula column …")
+      … (empty column: convert it to data, see `fillCols`) -/
 def checkCols (sch : Schema κ) : List κ → Except Err Unit
   | [] => .ok ()
   | k :: ks =>
@@ -223,6 +240,7 @@ def checkCols (sch : Schema κ) : List κ → Except Err Unit
     | none => .error .unknownColumn
     | some .formula => .error .formulaColumn
     | some .data => checkCols sch ks
+    | some .empty => checkCols sch ks
 
 /-- The rows created by `BulkAddRecord(table, [None, …], values)`: ids `next, next+1, …`, cells =
     the column defaults overwritten with the given values. -/
@@ -254,7 +272,7 @@ def fillIds : List (Option (List Nat)) → Nat → List (List Nat)
   | none :: r, nx => [nx] :: fillIds r (nx + 1)
   | some l :: r, nx => l :: fillIds r nx
 
-/-- `require_add_keys`. -/
+/-- `require_add_keys`: every `require` column but the real formula columns (empty columns stay). -/
 def requireAddKeys (sch : Schema κ) (rq : Request κ α) : List κ :=
   (akeys rq.require).filter (fun k => decide (aget sch k ≠ some ColKind.formula))
 
@@ -288,6 +306,52 @@ def upsertImpl (sch : Schema κ) (t0 : Table κ α) (next : Nat) (dflt : Rec κ 
         else match checkCols sch colKeys with
           | .error e => .error e
           | .ok _ => .ok (bulkUpdate t1 acc.upds colKeys)
+      match r2 with
+      | .error e => .error e
+      | .ok t2 =>
+        .ok (t2, { recordIds := fillIds acc.recordIds next,
+                   addRecordIds := (List.range acc.adds.length).map (fun k => next + k),
+                   updateRecordIds := acc.updateRecordIds })
+
+/-! ### empty columns that the two bulk actions convert to data columns -/
+
+/--
+`ModifyColumn(table, col, {isFormula: False})` issued by `_ensure_column_accepts_data` for an empty
+column that receives a non-blank value: every row that exists at that moment gets the new type's
+default in that column (`f` : converted column ↦ default of the guessed type).
+
+    col_info, values = guess_col_info(values, self._docmodel)
+    if not col_info: return values            -- all blank: the column stays empty
+    self._docmodel.update([col_rec], **col_info)
+    self.ModifyColumn(table_id, col_id, {'isFormula': False})
+-/
+def fillCols (t : Table κ α) (f : Rec κ α) : Table κ α := t.map (fun p => (p.1, setAll p.2 f))
+
+/-- `BulkAddOrUpdateRecord` with the conversions of empty columns: `cvAdd` = the columns converted by
+    the `_ensure_column_accepts_data` calls of `BulkAddRecord` (before the rows are added), `cvUpd` =
+    those converted by the calls of `BulkUpdateRecord` (after the rows are added, before
+    `trim_update_action` compares with the current cells).  Same text as `upsertImpl` otherwise. -/
+def upsertImplConv (sch : Schema κ) (t0 : Table κ α) (next : Nat) (dflt : Rec κ α)
+    (rq : Request κ α) (opt : Options) (cvAdd cvUpd : Rec κ α) : Except Err (Table κ α × Result) :=
+  match validate sch rq opt with
+  | .error e => .error e
+  | .ok none => .ok (t0, Result.empty)
+  | .ok (some n) =>
+    let acc := implAcc sch t0 rq opt n
+    let colKeys := akeys rq.colValues
+    let r1 : Except Err (Table κ α) :=
+      if acc.adds.isEmpty then .ok t0
+      else match checkCols sch (colKeys ++ (requireAddKeys sch rq).filter (fun k => decide (k ∉ colKeys))) with
+        | .error e => .error e
+        | .ok _ => .ok (fillCols t0 cvAdd ++ newRows dflt next acc.adds)
+    match r1 with
+    | .error e => .error e
+    | .ok t1 =>
+      let r2 : Except Err (Table κ α) :=
+        if acc.upds.isEmpty then .ok t1
+        else match checkCols sch colKeys with
+          | .error e => .error e
+          | .ok _ => .ok (bulkUpdate (fillCols t1 cvUpd) acc.upds colKeys)
       match r2 with
       | .error e => .error e
       | .ok t2 =>
@@ -384,6 +448,23 @@ def addOrUpdateImpl (sch : Schema κ) (t0 : Table κ α) (next : Nat) (dflt : Re
     let rq : Request κ α := { require := require.map (fun p => (p.1, [p.2])),
                               colValues := colValues.map (fun p => (p.1, [p.2])) }
     match upsertImpl sch t0 next dflt rq opt with
+    | .error e => .error e
+    | .ok (t, res) =>
+      match res.recordIds with
+      | [] => .ok (t, ⟨[], .none⟩)
+      | ids :: _ =>
+        .ok (t, ⟨ids, if res.updateRecordIds.length > 0 then .update
+                      else if res.addRecordIds.length > 0 then .add else .none⟩)
+
+/-- `AddOrUpdateRecord` with the conversions of empty columns (see `upsertImplConv`). -/
+def addOrUpdateImplConv (sch : Schema κ) (t0 : Table κ α) (next : Nat) (dflt : Rec κ α)
+    (require : List (κ × Cell α)) (colValues : List (κ × α)) (opt : Options) (cvAdd cvUpd : Rec κ α) :
+    Except Err (Table κ α × SingleResult) :=
+  if require.isEmpty && colValues.isEmpty then .ok (t0, ⟨[], .none⟩)
+  else
+    let rq : Request κ α := { require := require.map (fun p => (p.1, [p.2])),
+                              colValues := colValues.map (fun p => (p.1, [p.2])) }
+    match upsertImplConv sch t0 next dflt rq opt cvAdd cvUpd with
     | .error e => .error e
     | .ok (t, res) =>
       match res.recordIds with
